@@ -33,6 +33,12 @@ import traceback
 VERIF_DIR = os.path.dirname(os.path.dirname(os.path.abspath(__file__)))
 REPO = os.environ.get('VERIF_REPO', '/repo')
 KNOWN_FILE = os.path.join(VERIF_DIR, 'known_findings.json')
+# runs against a scratch copy (mutants) must not clobber the evidence and replays of /repo
+_SCRATCH = os.path.abspath(REPO) != '/repo'
+REPLAY_DIR = os.environ.get('VERIF_REPLAY_DIR') or (
+    '/var/tmp/verif-scratch/replays' if _SCRATCH else os.path.join(VERIF_DIR, 'replays'))
+EVIDENCE_DIR = os.environ.get('VERIF_EVIDENCE_DIR') or (
+    '/var/tmp/verif-scratch/evidence' if _SCRATCH else os.path.join(VERIF_DIR, 'evidence'))
 
 
 def canon(obj):
@@ -198,7 +204,7 @@ def match_known(known, prop, v):
 # replay
 
 def write_replay(prop, cfg, viol):
-    d = os.path.join(VERIF_DIR, 'replays', prop)
+    d = os.path.join(REPLAY_DIR, prop)
     os.makedirs(d, exist_ok=True)
     name = key_hash({'cfg': cfg, 'site': viol['site'], 'symptom': viol['symptom']})
     path = os.path.join(d, name + '.json')
@@ -430,8 +436,8 @@ def explore(prop, tier='quick', seed=0, jobs=None, budget=None, only_site=None):
         except Exception:
             out_lines.append('HARNESS-ERROR summarize\n' + traceback.format_exc())
             rc = 2
-    os.makedirs(os.path.join(VERIF_DIR, 'evidence'), exist_ok=True)
-    evpath = os.path.join(VERIF_DIR, 'evidence', prop + '.json')
+    os.makedirs(EVIDENCE_DIR, exist_ok=True)
+    evpath = os.path.join(EVIDENCE_DIR, prop + '.json')
     with open(evpath, 'w') as f:
         json.dump(ev, f, indent=1, sort_keys=True, default=str)
     problems = validate_evidence(ev)
